@@ -229,8 +229,14 @@ Family ==
 
 (* weights of K, C, M are independent of the state (affine maps) -- checked by construction of Coefs *)
 
+(* A scheme is chosen by the member of the enumeration or by its NAME (the enumeration is a string enumeration and the setter *)
+(* accepts both): the scheme, its derived parameters and its admissibility tests are the same for the two spellings.  The    *)
+(* behaviours carry the spelling the replay must use for each of them; it alternates with the content of the behaviour so that *)
+(* every scheme is driven both ways.                                                                                           *)
+Spelling == IF (Len(hist) > 0 /\ (hist[1].p.dt[1] + hist[1].p.al[1] + hist[1].p.be[2] + hist[1].p.ga[2]) % 2 = 1) THEN "name" ELSE "member"
+
 (* emission of complete behaviours for the replay harness *)
 EmitOK ==
     (Emit /\ Len(hist) = MaxSteps) =>
-        PrintT(<<"BEH", ToJson([mat |-> mat, cons |-> cons, steps |-> hist])>>)
+        PrintT(<<"BEH", ToJson([mat |-> mat, cons |-> cons, spelling |-> Spelling, steps |-> hist])>>)
 =============================================================================
